@@ -59,6 +59,14 @@ def check_case(case, ev):
             if rec.events or rec.shutdowns:
                 raise Violation("c12.rejected_call_emitted", f"[{tag}] rejected with MissingInputError but {len(rec.events)} events / {rec.shutdowns} shutdowns were delivered")
             continue
+        if case.get("bad_on_missing") and call.kind == "run":
+            # an invalid on_missing value is a caller mistake: rejected before anything is emitted or executed
+            labels.add("rejected_call:bad_on_missing")
+            if call.outcome.status != "raised" or not isinstance(call.outcome.error, ValueError):
+                raise Violation("c12.bad_on_missing_accepted", f"[{tag}] on_missing='raise' was not rejected with ValueError: {call.outcome.brief()}")
+            if rec.events or rec.shutdowns or call.ctx_log:
+                raise Violation("c12.rejected_call_emitted", f"[{tag}] rejected with {type(call.outcome.error).__name__} but {len(rec.events)} events / {rec.shutdowns} shutdowns / {len(call.ctx_log)} node invocations happened", why="bad_on_missing")
+            continue
         if call.rejected and not rec.events and not rec.shutdowns:
             labels.add("rejected_call")  # validation refused the top-level call before anything was emitted
             continue
